@@ -31,3 +31,65 @@ Print Assumptions C09_proposing_needs_valid.
 Theorem C09_checking_needs_valid np : check_ok np = true -> np = AValid.
 Proof. exact (checking_needs_valid np). Qed.
 Print Assumptions C09_checking_needs_valid.
+
+(* ---- over whole histories of finalised consensus blocks (chain-level model, Model/GoatChain.v) ---- *)
+From Goat Require Import Model.GoatChain Proofs.GoatChainProofs.
+
+(* the recorded head changes only when a block is finalised whose payload is a direct child of the current head
+   (parent hash, number + 1), proposed by that block's consensus proposer, with no blob gas, carrying the recorded
+   beacon root, and whose end-of-block notification did not fail; it then becomes that payload and the beacon root
+   becomes the finalising block's hash *)
+Theorem C09_head_changes_only_by_child s b :
+  c_head (cstep s b) <> c_head s ->
+  child_ok s b = true /\ b_rest_ok b = true /\ finalized_ok (b_np b) (b_fc b) = true /\
+  c_head (cstep s b) = head_of b /\ c_beacon (cstep s b) = b_cons_hash b.
+Proof. exact (head_changes_only_by_child s b). Qed.
+Print Assumptions C09_head_changes_only_by_child.
+
+Theorem C09_child_means s b : child_ok s b = true ->
+  b_parent b = h_hash (c_head s) /\ b_number b = (h_number (c_head s) + 1)%N /\ b_blob b = 0%N /\
+  b_beacon b = c_beacon s /\ b_proposer_ok b = true.
+Proof. exact (child_ok_spec s b). Qed.
+Print Assumptions C09_child_means.
+
+(* an error or INVALID answer at either end-of-block call: nothing of the block persists *)
+Theorem C09_fault_leaves_state s b : finalized_ok (b_np b) (b_fc b) = false -> cstep s b = s.
+Proof. exact (fault_commits_nothing s b). Qed.
+Print Assumptions C09_fault_leaves_state.
+
+(* retrying the block after the fault cleared gives the same result as a fault-free run *)
+Theorem C09_retry_after_fault s b np fc :
+  finalized_ok np fc = false -> cstep (cstep s (with_answers b np fc)) b = cstep s b.
+Proof. exact (retry_after_fault s b np fc). Qed.
+Print Assumptions C09_retry_after_fault.
+
+(* the engine is told the head recorded at the end of the block, which is the committed head *)
+Theorem C09_engine_told_recorded_head s b : finalized_ok (b_np b) (b_fc b) = true -> told s b = c_head (cstep s b).
+Proof. exact (told_is_recorded s b). Qed.
+Print Assumptions C09_engine_told_recorded_head.
+
+(* every history: the recorded heads form a chain (each equals its predecessor or is its direct child), the head
+   number never decreases and grows by at most one per block, and blocks that failed on an engine fault leave no
+   trace in the result *)
+Theorem C09_heads_form_a_chain bs s : chain_from (c_head s) (heads s bs).
+Proof. exact (heads_form_a_chain bs s). Qed.
+Print Assumptions C09_heads_form_a_chain.
+
+Theorem C09_number_monotone bs s :
+  (h_number (c_head s) <= h_number (c_head (crun s bs)) <= h_number (c_head s) + N.of_nat (length bs))%N.
+Proof. exact (number_monotone bs s). Qed.
+Print Assumptions C09_number_monotone.
+
+Theorem C09_faulted_blocks_leave_no_trace bs s :
+  crun s bs = crun s (filter (fun b => finalized_ok (b_np b) (b_fc b)) bs).
+Proof. exact (faulted_blocks_leave_no_trace bs s). Qed.
+Print Assumptions C09_faulted_blocks_leave_no_trace.
+
+(* non-vacuity: a child block advances the head, a non-child does not, a faulted child does not *)
+Example C09_chain_example :
+  let s := mkCS (mkHead [1] [0] 5) [9] in
+  let good := mkCB [2] [1] 6 0 [9] [7] true true AValid ASyncing in
+  let stranger := mkCB [3] [8] 6 0 [9] [7] true true AValid AValid in
+  c_head (cstep s good) = mkHead [2] [1] 6 /\ c_beacon (cstep s good) = [7] /\
+  cstep s stranger = s /\ cstep s (with_answers good AValid AInvalid) = s.
+Proof. vm_compute. repeat split; reflexivity. Qed.
